@@ -12,6 +12,7 @@ import ZoektModel.C27.Lemmas
 import ZoektModel.C27.Printer
 import ZoektModel.C27.Escape
 import ZoektModel.C27.EscapeClass
+import ZoektModel.C27.NegClass
 import ZoektModel.C27.EndsSound
 import ZoektModel.C27.EndsComplete
 import ZoektModel.C27.Spec
@@ -180,6 +181,62 @@ theorem class_body_reads_back (isPrint : Nat → Bool) (hv : ∀ r, isPrint r = 
     (rs : List Nat) (hw : WFClass rs) (rest : List Char) :
     readClassItems (rs.length + 1) (classPairs isPrint rs ++ ']' :: rest) = some (rs, rest) :=
   readClassItems_classPairs isPrint hv rest rs (rs.length + 1) hw (Nat.lt_succ_self _)
+
+/-- **negated classes**: for a class containing 0 and U+10FFFF the printer writes `[^` gaps `]`; the gaps are printed
+    as a positive class body (so `class_body_reads_back` applies to them) … -/
+theorem negated_class_printed_as_gaps (isPrint : Nat → Bool) (l : List Nat) :
+    classGaps isPrint l = classPairs isPrint (gaps l) := classGaps_eq isPrint l
+
+/-- … and a rune is in the class iff it is in none of the gaps (`Chain`: sorted ranges with non-empty gaps, the shape
+    `cleanClass` produces): negating what is printed gives back the class. -/
+theorem negated_class_denotes (l : List Nat) (lo c : Nat) (h : Chain lo l) (h1 : lo ≤ c) (h2 : c ≤ lastOf lo l) :
+    inClass (lo :: l) c = !inClass (gaps l) c := negated_gaps l lo c h h1 h2
+
+mutual
+/-- **after capture removal the printout has no capturing parenthesis**: a tree without captures prints no `(` / `(?P<` token. -/
+theorem no_capture_no_paren : ∀ r : Re, hasCapture r = false → ∀ n, Tok.openCap n ∉ printTok r
+  | .noMatch, _, n | .emptyMatch, _, n | .cls _, _, n | .anyNotNL, _, n | .any, _, n | .beginLine, _, n | .endLine, _, n
+  | .beginText, _, n | .endText _, _, n | .wordB, _, n | .noWordB, _, n => by simp [printTok]
+  | .lit rs fold, _, n => by cases fold <;> simp [printTok]
+  | .cap _ _, h, _ => by simp [hasCapture] at h
+  | .star ng r, h, n => by
+    have ih := no_capture_no_paren r (by simpa [hasCapture] using h) n
+    cases hg : needsGroup r <;> simp [printTok, wrapTok, hg, ih]
+  | .plus ng r, h, n => by
+    have ih := no_capture_no_paren r (by simpa [hasCapture] using h) n
+    cases hg : needsGroup r <;> simp [printTok, wrapTok, hg, ih]
+  | .quest ng r, h, n => by
+    have ih := no_capture_no_paren r (by simpa [hasCapture] using h) n
+    cases hg : needsGroup r <;> simp [printTok, wrapTok, hg, ih]
+  | .rep ng mn mx r, h, n => by
+    have ih := no_capture_no_paren r (by simpa [hasCapture] using h) n
+    cases hg : needsGroup r <;> simp [printTok, wrapTok, hg, ih]
+  | .concat rs, h, n => by
+    simp only [printTok]; exact no_capture_no_paren_concat rs (by simpa [hasCapture] using h) n
+  | .alt rs, h, n => by
+    simp only [printTok]; exact no_capture_no_paren_alt rs (by simpa [hasCapture] using h) n
+theorem no_capture_no_paren_concat : ∀ rs : List Re, hasCaptureL rs = false → ∀ n, Tok.openCap n ∉ printTokConcat rs
+  | [], _, n => by simp [printTokConcat]
+  | r :: rs, h, n => by
+    simp only [hasCaptureL, Bool.or_eq_false_iff] at h
+    have ih1 := no_capture_no_paren r h.1 n
+    have ih2 := no_capture_no_paren_concat rs h.2 n
+    cases hg : isAlt r <;> simp [printTokConcat, wrapTok, hg, ih1, ih2]
+theorem no_capture_no_paren_alt : ∀ rs : List Re, hasCaptureL rs = false → ∀ n, Tok.openCap n ∉ printTokAlt rs
+  | [], _, n => by simp [printTokAlt]
+  | [r], h, n => by
+    simp only [hasCaptureL, Bool.or_eq_false_iff] at h
+    simpa [printTokAlt] using no_capture_no_paren r h.1 n
+  | r :: r2 :: rs, h, n => by
+    simp only [hasCaptureL, Bool.or_eq_false_iff] at h
+    have ih1 := no_capture_no_paren r h.1 n
+    have ih2 := no_capture_no_paren_alt (r2 :: rs) (by simp only [hasCaptureL, Bool.or_eq_false_iff]; exact h.2) n
+    simp [printTokAlt, ih1, ih2]
+end
+
+/-- in particular the printout of `uncapture r` has none -/
+theorem uncapture_prints_no_capture (r : Re) (n : String) : Tok.openCap n ∉ printTok (uncapture r) :=
+  no_capture_no_paren (uncapture r) (uncapture_no_capture r) n
 
 /-- the token printer is the character printer -/
 theorem print_tokens_render (isPrint : Nat → Bool) (r : Re) : render isPrint (printTok r) = printRe isPrint r :=
